@@ -521,6 +521,7 @@ pub fn map_children(g: &G, f: &mut dyn FnMut(&G) -> G) -> G {
         MapZ(a) => MapZ(bx(a)),
         SliceWith(a) => SliceWith(bx(a)),
         SpanWith(a) => SpanWith(bx(a)),
+        TryMapSpan(a) => TryMapSpan(bx(a)),
         Mid(a) => Mid(bx(a)),
         Lazy(a) => Lazy(bx(a)),
         Ext(a, o) => Ext(bx(a), *o),
@@ -678,6 +679,7 @@ pub fn k07(slices: bool) -> Class {
     c.name = if slices { "K07" } else { "K07-noslice" };
     c.unary.push(u1(|a| Some(ToSpan(a))));
     c.unary.push(u1(|a| Some(SpanWith(a))));
+    c.unary.push(u1(|a| Some(TryMapSpan(a))));
     c.unary.push(u1(|a| Some(Validate(a, 1))));
     c.unary.push(u1(|a| if nn(&a) { Some(Rep(a, Bounds::STAR, Sink::FoldlWith(b(Empty)))) } else { None }));
     c.unary.push(u1(|a| if nn(&a) { Some(Rep(a, Bounds::STAR, Sink::FoldrWith(b(Empty)))) } else { None }));
